@@ -191,7 +191,7 @@ def impl_pred(g, cls=None, probe=None):
     fns = (model.predict_win, model.predict_draw, model.predict_rank)
     out = [None, None, None]
     for k in order:
-        out[k] = fns[k](teams)
+        out[k] = core.in_thread(lambda k=k: fns[k](teams)) if h % 8 == 6 else fns[k](teams)
     if h % 4 == 1 and not g.get("_no_history"):
         # the caller owns what a query returns: the returned lists are edited in place (percentages, sorting, popping) and the same
         # queries repeated — every answer is a fresh object holding the same numbers
